@@ -14,7 +14,7 @@ META = {
 }
 
 ALLOWED_AXIOMS = ()
-MODEL_VOS = ["Base/Conv.vo", "IO/Dddmp.vo", "IO/DddmpFile.vo", "IO/DddmpTdd.vo"]
+MODEL_VOS = ["Base/Conv.vo", "IO/Dddmp.vo", "IO/DddmpFile.vo", "IO/DddmpTdd.vo", "DD/Table.vo", "DD/IsoCheck.vo"]
 
 
 def build(ctx):
